@@ -695,7 +695,13 @@ func c12Generate(kind string, seed int64, n int) ([]*c12Input, error) {
 	rng := rand.New(rand.NewSource(seed*7919 + int64(len(kind))))
 	var ins []*c12Input
 	add := func(src string, pre []string, b []byte) {
-		ins = append(ins, &c12Input{ID: fmt.Sprintf("%s%d.%d", kind[:1], seed, len(ins)+1), Src: src, Pre: pre, Hex: hex.EncodeToString(b), data: b})
+		in := &c12Input{ID: fmt.Sprintf("%s%d.%d", kind[:1], seed, len(ins)+1), Src: src, Pre: pre, Hex: hex.EncodeToString(b), data: b}
+		// every fifth case goes on with a pristine table on the same parser (the SSDT only needs the default \_PR_ scope)
+		if len(ins)%5 == 4 {
+			in.Post = []string{"SSDT"}
+			in.Src += " then SSDT"
+		}
+		ins = append(ins, in)
 	}
 	var fixtures [][]byte
 	for _, tb := range c12Tables {
